@@ -1573,18 +1573,30 @@ func (h *hostEnv) smallAllowance() types.Currency {
 	return h.prices.RPCWriteSectorCost(proto4.SectorSize).RenterCost().Mul64(3)
 }
 
-func pricesFor(r *rng.R) proto4.HostPrices {
+// priceSpec is the part of the price table a scenario depends on (hastings per byte);
+// it is stored in replay files because the steered amounts are exact costs.
+type priceSpec struct {
+	Storage uint64 `json:"storage"`
+	Ingress uint64 `json:"ingress"`
+	Egress  uint64 `json:"egress"`
+}
+
+func pricesFor(r *rng.R) priceSpec {
+	return priceSpec{uint64(1 + r.Intn(2)), pick(r, []uint64{1, 3, 100}), pick(r, []uint64{1, 2, 100})}
+}
+
+func (p priceSpec) table() proto4.HostPrices {
 	return proto4.HostPrices{
 		ContractPrice: types.NewCurrency64(1000),
-		StoragePrice:  types.NewCurrency64(uint64(1 + r.Intn(2))),
-		IngressPrice:  types.NewCurrency64(pick(r, []uint64{1, 3, 100})),
-		EgressPrice:   types.NewCurrency64(pick(r, []uint64{1, 2, 100})),
+		StoragePrice:  types.NewCurrency64(p.Storage),
+		IngressPrice:  types.NewCurrency64(p.Ingress),
+		EgressPrice:   types.NewCurrency64(p.Egress),
 		Collateral:    types.NewCurrency64(2),
 	}
 }
 
-func setupHost(r *rng.R) (*hostEnv, error) {
-	h, err := newHost(r, pricesFor(r))
+func setupHost(r *rng.R, ps priceSpec) (*hostEnv, error) {
+	h, err := newHost(r, ps.table())
 	if err != nil {
 		return nil, err
 	}
@@ -1610,12 +1622,16 @@ func runC15(c *hx.Ctx) {
 	if c.Replay != "" {
 		var rp struct {
 			Replay struct {
-				Ops []opDesc `json:"ops"`
+				Ops    []opDesc  `json:"ops"`
+				Prices priceSpec `json:"prices"`
 			} `json:"replay"`
 		}
 		b, _ := os.ReadFile(c.Replay)
 		json.Unmarshal(b, &rp)
-		h, err := setupHost(c.R.Fork())
+		if rp.Replay.Prices.Egress == 0 {
+			rp.Replay.Prices = priceSpec{1, 1, 1}
+		}
+		h, err := setupHost(c.R.Fork(), rp.Replay.Prices)
 		if err != nil {
 			res.Fail("harness-setup", err.Error(), nil)
 			return
@@ -1628,7 +1644,7 @@ func runC15(c *hx.Ctx) {
 		}
 		res.Eval(fmt.Sprint(rp.Replay.Ops), true)
 		if f != nil {
-			res.Fail(f.kind, f.detail, map[string]any{"ops": rp.Replay.Ops, "failing_step": f.step})
+			res.Fail(f.kind, f.detail, map[string]any{"ops": rp.Replay.Ops, "failing_step": f.step, "prices": rp.Replay.Prices})
 		}
 		res.WriteCases("Run.Run_C15", []string{sc.coqCase()})
 		return
@@ -1646,6 +1662,7 @@ func runC15(c *hx.Ctx) {
 		seeds[i] = c.R.Fork()
 	}
 	results := make([]scenResult, nScen)
+	hostPrices := make([]priceSpec, workers)
 	var wg sync.WaitGroup
 	var setupErr error
 	var mu sync.Mutex
@@ -1653,7 +1670,9 @@ func runC15(c *hx.Ctx) {
 		wg.Add(1)
 		go func(w int) {
 			defer wg.Done()
-			h, err := setupHost(hostSeeds[w])
+			ps := pricesFor(hostSeeds[w])
+			hostPrices[w] = ps
+			h, err := setupHost(hostSeeds[w], ps)
 			if err != nil {
 				mu.Lock()
 				setupErr = err
@@ -1726,7 +1745,7 @@ func runC15(c *hx.Ctx) {
 		}
 		if out.fail != nil {
 			perKind[out.fail.kind]++
-			res.Fail(out.fail.kind, out.sdetail, map[string]any{"ops": out.shrunk, "failing_step": len(out.shrunk) - 1, "scenario": i})
+			res.Fail(out.fail.kind, out.sdetail, map[string]any{"ops": out.shrunk, "failing_step": len(out.shrunk) - 1, "scenario": i, "prices": hostPrices[i%workers]})
 		}
 	}
 	res.Explored = map[string]any{"scenarios": nScen, "ops_per_scenario": opsPer, "hosts": workers}
